@@ -232,6 +232,15 @@ func genIface(r *rand.Rand, idx int, placement string, stream string) IfaceJ {
 		}
 		it.Methods = append(it.Methods, m)
 	}
+	if placement == "inpkg" && !used["VisitNode"] && stream == "" && r.Intn(2) == 0 {
+		// unnamed parameters whose derived name would be the name of their own (unexported, local) type: the name
+		// generator has to step aside, also when the type is reached through a pointer
+		lu := TyJ{K: "named", Pkg: pkgSrc, PkgName: "src", Name: "localUnexp"}
+		lu2 := lu
+		used["VisitNode"] = true
+		it.Methods = append(it.Methods, MethodJ{Name: "VisitNode", Params: []VarJ{{Type: TyJ{K: "pointer", Elem: &lu}}, {Type: lu2}},
+			Results: []VarJ{{Type: TyJ{K: "universe", Name: "error"}}}})
+	}
 	// embedded interfaces: a method may be reached along several paths as long as it is the same declaration
 	tree := &IfaceTreeJ{Src: it.Name, Own: []string{}, Embeds: []IfaceTreeJ{}}
 	for _, m := range it.Methods {
